@@ -51,7 +51,12 @@ func H_C16_sid_structure() {
 		subs[i] = uint32(vU8(subName(i)))
 		vAssume(subs[i] < 10)
 	}
-	got := ParseSIDFromBytes(buildSID(count, auth, subs))
+	raw := buildSID(count, auth, subs)
+	keep := append([]byte{}, raw...)
+	got := ParseSIDFromBytes(raw)
+	// the buffer is the caller's (an LDAP entry's own attribute storage): parsing reads it only, so a second parse agrees
+	vCheck(vBytesEq(raw, keep), "sid/input-buffer-unchanged")
+	vCheck(vStrEq(ParseSIDFromBytes(raw), got), "sid/second-parse-of-the-same-buffer-agrees")
 	// one-digit values: the reference needs no digit-count case split
 	want := "S-1-" + string([]byte{'0' + byte(auth)})
 	for _, x := range subs {
@@ -102,6 +107,11 @@ func H_C16_dn() {
 			dn += ","
 		}
 		dn += prefix + val
+		if ty != 0 {
+			// special characters inside a value are escaped with a backslash in the form Active Directory emits
+			// (RFC 4514): they are part of the value and neither end the RDN nor start a new one
+			dn += [4]string{"", "\\\\", "\\,DC=x", "\\\\\\,DC=y\\\\"}[vParam("esc")]
+		}
 		if ty == 0 {
 			if !first {
 				want += "."
